@@ -15,7 +15,7 @@
         open spec fn dec_stop(rest: Seq<u8>) -> bool { rest.len() == 0 || (match <zvt_builder::encoding::Default as zvt_builder::encoding::Encoding<zvt_builder::Tag>>::spec_dec(rest) { None => true, Some((t, _)) => t.0 != 29u16 && t.0 != 30u16 && t.0 != 7936u16 && t.0 != 28u16 }) }
         /// the tag loop is specified by totality and frame clauses only
         open spec fn functional() -> bool { false }
-        //@ fn exp:zvt | impl zvt_builder::encoding::Encoding<File> for zvt_builder::encoding::Default | encode | mod=feig::packets::tlv props=C03
+        //@ fn exp:zvt | impl zvt_builder::encoding::Encoding<File> for zvt_builder::encoding::Default | encode | mod=feig::packets::tlv props=C03,~C01
         //@ end
         //@ fn exp:zvt | impl zvt_builder::encoding::Encoding<File> for zvt_builder::encoding::Default | decode | mod=feig::packets::tlv all-loops props=C02,C14
         //@ loop 0
@@ -98,7 +98,7 @@
         open spec fn dec_stop(rest: Seq<u8>) -> bool { rest.len() == 0 || (match <zvt_builder::encoding::Default as zvt_builder::encoding::Encoding<zvt_builder::Tag>>::spec_dec(rest) { None => true, Some((t, _)) => t.0 != 45u16 }) }
         /// the tag loop is specified by totality and frame clauses only
         open spec fn functional() -> bool { false }
-        //@ fn exp:zvt | impl zvt_builder::encoding::Encoding<WriteData> for zvt_builder::encoding::Default | encode | mod=feig::packets::tlv props=C03
+        //@ fn exp:zvt | impl zvt_builder::encoding::Encoding<WriteData> for zvt_builder::encoding::Default | encode | mod=feig::packets::tlv props=C03,~C01
         //@ end
         //@ fn exp:zvt | impl zvt_builder::encoding::Encoding<WriteData> for zvt_builder::encoding::Default | decode | mod=feig::packets::tlv all-loops props=C02,C14
         //@ loop 0
@@ -163,7 +163,7 @@
         open spec fn dec_stop(rest: Seq<u8>) -> bool { rest.len() == 0 || (match <zvt_builder::encoding::Default as zvt_builder::encoding::Encoding<zvt_builder::Tag>>::spec_dec(rest) { None => true, Some((t, _)) => true }) }
         /// the tag loop is specified by totality and frame clauses only
         open spec fn functional() -> bool { false }
-        //@ fn exp:zvt | impl zvt_builder::encoding::Encoding<WriteFile> for zvt_builder::encoding::Default | encode | mod=feig::packets::tlv props=C03
+        //@ fn exp:zvt | impl zvt_builder::encoding::Encoding<WriteFile> for zvt_builder::encoding::Default | encode | mod=feig::packets::tlv props=C03,~C01
         //@ end
         //@ fn exp:zvt | impl zvt_builder::encoding::Encoding<WriteFile> for zvt_builder::encoding::Default | decode | mod=feig::packets::tlv all-loops props=C02,C14
         //@ loop 0
@@ -232,7 +232,7 @@
         open spec fn dec_stop(rest: Seq<u8>) -> bool { rest.len() == 0 || (match <zvt_builder::encoding::Default as zvt_builder::encoding::Encoding<zvt_builder::Tag>>::spec_dec(rest) { None => true, Some((t, _)) => true }) }
         /// the tag loop is specified by totality and frame clauses only
         open spec fn functional() -> bool { false }
-        //@ fn exp:zvt | impl zvt_builder::encoding::Encoding<HostConfigurationData> for zvt_builder::encoding::Default | encode | mod=feig::packets::tlv props=C03
+        //@ fn exp:zvt | impl zvt_builder::encoding::Encoding<HostConfigurationData> for zvt_builder::encoding::Default | encode | mod=feig::packets::tlv props=C03,~C01
         //@ end
         //@ fn exp:zvt | impl zvt_builder::encoding::Encoding<HostConfigurationData> for zvt_builder::encoding::Default | decode | mod=feig::packets::tlv all-loops props=C02,C14
         //@ loop 0
@@ -291,7 +291,7 @@
         open spec fn dec_stop(rest: Seq<u8>) -> bool { rest.len() == 0 || (match <zvt_builder::encoding::Default as zvt_builder::encoding::Encoding<zvt_builder::Tag>>::spec_dec(rest) { None => true, Some((t, _)) => t.0 != 65344u16 && t.0 != 65345u16 }) }
         /// the tag loop is specified by totality and frame clauses only
         open spec fn functional() -> bool { false }
-        //@ fn exp:zvt | impl zvt_builder::encoding::Encoding<SystemInformation> for zvt_builder::encoding::Default | encode | mod=feig::packets::tlv props=C03
+        //@ fn exp:zvt | impl zvt_builder::encoding::Encoding<SystemInformation> for zvt_builder::encoding::Default | encode | mod=feig::packets::tlv props=C03,~C01
         //@ end
         //@ fn exp:zvt | impl zvt_builder::encoding::Encoding<SystemInformation> for zvt_builder::encoding::Default | decode | mod=feig::packets::tlv all-loops props=C02,C14
         //@ loop 0
@@ -362,7 +362,7 @@
         open spec fn dec_stop(rest: Seq<u8>) -> bool { rest.len() == 0 || (match <zvt_builder::encoding::Default as zvt_builder::encoding::Encoding<zvt_builder::Tag>>::spec_dec(rest) { None => true, Some((t, _)) => t.0 != 228u16 }) }
         /// the tag loop is specified by totality and frame clauses only
         open spec fn functional() -> bool { false }
-        //@ fn exp:zvt | impl zvt_builder::encoding::Encoding<ChangeConfiguration> for zvt_builder::encoding::Default | encode | mod=feig::packets::tlv props=C03
+        //@ fn exp:zvt | impl zvt_builder::encoding::Encoding<ChangeConfiguration> for zvt_builder::encoding::Default | encode | mod=feig::packets::tlv props=C03,~C01
         //@ end
         //@ fn exp:zvt | impl zvt_builder::encoding::Encoding<ChangeConfiguration> for zvt_builder::encoding::Default | decode | mod=feig::packets::tlv all-loops props=C02,C14
         //@ loop 0
